@@ -25,7 +25,8 @@ RULE = ('chains n = 2..8 from random seeds and key sets, per-hop sigfields, '
         'another chain on every hop, and release histories = all '
         'permutations of hop order for n <= 4 (quick) / 5 (thorough), sampled '
         'beyond. distinct = by (seed, keys, history); non-trivial = n >= 3 or '
-        'a wrong-order history')
+        'a wrong-order history'
+        " [plus seeds of 0..200 bytes (empty, all-zero, trailing NULs), the other chain's seed related to the chain's (padding, truncation, digest, one bit), seed histories, per-chain flags, registers-off processes]")
 ASSUMPTIONS = [
     'pure-Python Ed25519 reference for scalar / point sums',
     'a party can only use scalars it has learned: the final key, and K_{h-1} '
